@@ -12,6 +12,7 @@ from fractions import Fraction
 from . import e2_formula as F
 from .core import AnchorError, Unsupported
 from .e2_eval import is_unknown, need
+from .e1_srcmodel import dotted
 from .sem import module_funcs, place
 from .c10_sem import (XSem, Facts, Degrees, Stencil, ANY, truth, same, app, head, sym_of, const_of, walk, apps, peel, depends, conj, wrap, devectorise,
                       module_consts, str_parts, single_atom, untuple, TRUE, FALSE, NONE)
@@ -170,6 +171,59 @@ def _digitized(x):
     return ("call:np.digitize", dgs[0][1]), shift + inner, k, (atom, shift)
 
 
+def _flat_view(S, fb, mat, node):
+    """(pass 6) the store `v[k] (+)= x` goes through a name bound once to a flattened *view* of the table `mat` (mat.ravel(), np.ravel(mat),
+    mat.reshape(-1), all row-major; the table is created C-contiguous by np.zeros / np.full, so these are views): the name, else None.
+    The evaluator erases .ravel(), so such a store shows up as a one-index store into the two-axis table."""
+    tgt = node.target if isinstance(node, (ast.AugAssign, ast.AnnAssign)) else (node.targets[0] if isinstance(node, ast.Assign) and len(node.targets) == 1 else None)
+    if not isinstance(tgt, ast.Subscript) or not isinstance(tgt.value, ast.Name) or tgt.value.id == mat:
+        return None
+    nm = tgt.value.id
+    binds = [n for n in ast.walk(fb) if isinstance(n, ast.Name) and n.id == nm and isinstance(n.ctx, (ast.Store, ast.Del))]
+    mbinds = [n for n in ast.walk(fb) if isinstance(n, ast.Name) and n.id == mat and isinstance(n.ctx, (ast.Store, ast.Del))]
+    if len(binds) != 1 or len(mbinds) != 1:
+        return None
+    al = S.tr.allocs.get(mat)
+    if al is None or al[0] not in ("np.zeros", "np.full", "np.ones", "np.empty") or al[2].get("order") is not None:
+        return None
+    for a in ast.walk(fb):
+        if isinstance(a, ast.Assign) and len(a.targets) == 1 and a.targets[0] is binds[0] and isinstance(a.value, ast.Call):
+            c = a.value
+            d = dotted(c.func) or ""
+            if isinstance(c.func, ast.Attribute) and isinstance(c.func.value, ast.Name) and c.func.value.id == mat:
+                if c.func.attr == "ravel" and not c.args and not c.keywords:
+                    return nm
+                if c.func.attr == "reshape" and not c.keywords and len(c.args) == 1:
+                    x = c.args[0]
+                    if isinstance(x, (ast.Tuple, ast.List)) and len(x.elts) == 1:
+                        x = x.elts[0]
+                    if isinstance(x, ast.UnaryOp) and isinstance(x.op, ast.USub) and isinstance(x.operand, ast.Constant) and x.operand.value == 1:
+                        return nm
+            if d in ("np.ravel", "numpy.ravel") and len(c.args) == 1 and not c.keywords and isinstance(c.args[0], ast.Name) and c.args[0].id == mat:
+                return nm
+    return None
+
+
+def _flat_parts(x):
+    """the digitize entries a flat index is computed from: [(entry atom, offset of the entry against digitize(...)[k], [k], digitize application)],
+    or None when some part of x that depends on digitize is not such an entry"""
+    if x is None or is_unknown(x) or isinstance(x, (tuple, str)):
+        return None
+    cands = [v for _, _, v in apps(x, "idx") if apps(v, "call:np.digitize")]
+    outer = [v for v in cands if not any(v is not w and any(same(v, y) for y in walk(w) if y is not w) for w in cands)]
+    uniq = []
+    for v in outer:
+        if not any(same(v, w) for w in uniq):
+            uniq.append(v)
+    parts = []
+    for v in uniq:
+        dg, off, k, (atom, _) = _digitized(v)
+        if dg is None or len(k) != 1:
+            return None
+        parts.append((atom, off, k, dg))
+    return parts
+
+
 def r5_binify_guards(ctx):
     """numpy.digitize(x, b, right) - 1 is a valid bin index iff  b[0] < x <= b[-1] (right=True)  /  b[0] <= x < b[-1] (right=False).
     getbins' out-of-bounds verdict must be the exact complement, because binify drops the index guard when it says 'in bounds'."""
@@ -309,12 +363,28 @@ def r5_binify_guards(ctx):
             continue
         acc[ens] = (S, mat, cells[0])
     roles = {}
+    flat = {}
     if True in acc and False in acc:
         bad = None
         shape = True
         for ens, (S, mat, cell) in acc.items():
             _, ix = peel(F.fn("idx", F.sym(mat), cell[1]))
             got = []
+            fl_parts = None
+            if len(ix) == 1 and S.ev._rank(mat) == 2 and _digitized(ix[0])[0] is None and _flat_view(S, fb, mat, cell[3]) is not None:
+                # (pass 6) one index into a flattened view of the table: read by value - which digitize entries it is computed from here, where the
+                # count lands (divmod by the number of columns) in the truth table below
+                fl_parts = _flat_parts(ix[0])
+            if fl_parts is not None and len(fl_parts) == 2:
+                for atom_, off_, k_, dg_ in fl_parts:
+                    pos_a, kw_a = call_args(dg_)
+                    a = place(pos_a, kw_a, ["x", "bins", "right"])
+                    _, cix = peel(a.get("x"))
+                    col = const_of(cix[1]) if len(cix) == 2 and _is_full(cix[0]) else None
+                    got.append((col, sym_of(a.get("bins")), a.get("right"), k_[0], atom_, off_))
+                got.sort(key=lambda g_: (g_[0] != 1, g_[0] != 0))          # the mean entry (column 1 of the cycle table) first
+                flat[ens] = {"mean": got[0][4:], "amp": got[1][4:], "name": _flat_view(S, fb, mat, cell[3])}
+                ix = ()
             for pos, x in enumerate(ix):
                 dg, off, k, _ = _digitized(x)
                 if dg is None or len(k) != 1:
@@ -379,14 +449,42 @@ def r5_binify_guards(ctx):
                 g = conj(list(cell[4]["guard"]))
                 tab = {}
                 und = False
+                lands = {}
                 for r_, rin in ((-1, False), (0, True), (3, True), (5, False), (7, False)):
                     for c_, cin in ((-1, False), (0, True), (2, True), (4, False), (9, False)):
                         f = Facts(truths=[(Sb0.E(pb[4]), ens)])        # the regime the arm was evaluated in (a merged loop tests the flag per cycle)
+                        f.num_set(Sb0.E(f"len({roles[ens]['mean']})"), 6)
+                        f.num_set(Sb0.E(f"len({roles[ens]['amp']})"), 5)
+                        if ens in flat:
+                            # (pass 6) the flat index by value: digitize(...)[k] - 1 is r_ resp. c_; the entry the code computes from it has its own
+                            # offset; the count lands in row, column = divmod(flat index, number of columns) of the table as it was created
+                            for role, val in (("mean", r_), ("amp", c_)):
+                                atom, off = flat[ens][role]
+                                f.num_set(atom, val + 1 + off)
+                            al_ = S.tr.allocs.get(mat)
+                            shp_ = untuple(place(al_[1], al_[2], ["shape", "fill_value", "dtype"] if al_[0] == "np.full" else ["shape", "dtype"]).get("shape"))
+                            dims = [f.num(d_) for d_ in shp_] if isinstance(shp_, tuple) and len(shp_) == 2 else [None, None]
+                            kf = f.num(ix[0])
+                            if None in dims or kf is None or kf.denominator != 1 or min(dims) <= 0:
+                                und = True
+                                continue
+                            for nm_ in (flat[ens]["name"], mat):
+                                f.num_set(F.sym(nm_ + ".size"), dims[0] * dims[1])
+                            t = truth(g, f)
+                            und = und or t is None
+                            tab[(r_, c_)] = (t, rin and cin)
+                            if t:
+                                # numpy: a negative index counts from the end; outside [-size, size) is an IndexError
+                                size_ = dims[0] * dims[1]
+                                kk = kf + size_ if -size_ <= kf < 0 else kf
+                                cellrc = tuple(int(z) for z in divmod(kk, dims[1])) if 0 <= kk < size_ else "IndexError"
+                                lands[(r_, c_)] = cellrc
+                                if rin and cin and cellrc != (r_, c_):
+                                    tab[(r_, c_)] = (cellrc, (r_, c_))
+                            continue
                         for x, val in ((ix[0], r_), (ix[1], c_)):
                             _, _, _, (atom, shift) = _digitized(x)    # x = atom + shift with atom the indexed digitize result
                             f.num_set(atom, val - shift)
-                        f.num_set(Sb0.E(f"len({roles[ens]['mean']})"), 6)
-                        f.num_set(Sb0.E(f"len({roles[ens]['amp']})"), 5)
                         t = truth(g, f)
                         und = und or t is None
                         tab[(r_, c_)] = (t, rin and cin)
@@ -394,8 +492,13 @@ def r5_binify_guards(ctx):
                     ctx.error(f"_binify: guard of the {'guarded' if ens else 'unguarded'} accumulation", cell[3], short(g))
                 elif ens:
                     ok = all(t == want for t, want in tab.values())
-                    ctx.check(ok, "_binify: the guarded arm adds a cycle's count only when both indices are valid", cell[3],
-                              None if ok else {"guard": short(g), "(row, column) -> (added, valid)": {str(k): v for k, v in tab.items() if v[0] != v[1]}})
+                    det = None if ok else {"guard": short(g), "(row, column) -> (added, valid)": {str(k): v for k, v in tab.items() if v[0] != v[1]}}
+                    if not ok and ens in flat:
+                        det["the table is indexed through the flattened view"] = flat[ens]["name"]
+                        det["flat index"] = short(ix[0], 200)
+                        det["witness: (row, column) of the cycle -> table entry that receives its count"] = \
+                            {str(k): str(v) for k, v in lands.items() if tab[k][0] != tab[k][1]}
+                    ctx.check(ok, "_binify: the guarded arm adds a cycle's count only when both indices are valid", cell[3], det)
                 else:
                     ok = all(t is True for t, _ in tab.values())
                     ctx.check(ok, "_binify: the unguarded arm (used when getbins proved every value in bounds) adds every count", cell[3], None if ok else short(g))
@@ -738,6 +841,7 @@ def r6_tolerance_strictness(ctx):
             variants.append((q, fn, S, pq, loops, S0))
             sites.append(("findap", fn, S, pq))
     n = 0
+    site_ok = {}
     for name, fn, S, pp in sites:
         if len(pp) < 2:
             raise AnchorError(f"{name}(y, tol)")
@@ -745,6 +849,7 @@ def r6_tolerance_strictness(ctx):
         cm = _tol_cmps(_all_values(S), pp[1])
         D = S.E(f"np.diff({pp[0]})")
         tol_ok = []
+        site_ok[name] = False
         for cmpv, d, t in cm:
             n += 1
             r = _strict(cmpv, d, t)
@@ -761,6 +866,7 @@ def r6_tolerance_strictness(ctx):
                       {"not recognised as |tol| * max|diff(y)| nor as something else": [short(t) for (_, _, t), k in zip(cm, tol_ok) if k is None]})
         elif cm:
             ok = all(k == "ok" for k in tol_ok)
+            site_ok[name] = ok
             ctx.check(ok, f"{name}: the tolerance is relative to the largest sample-to-sample difference", fn, None if ok else [short(t) for _, _, t in cm])
     if n >= 4:
         ctx.ok(f"tolerance rule bound to {n} comparisons in find_unique and findap", LOC + ":1", nontrivial=False)
@@ -769,6 +875,7 @@ def r6_tolerance_strictness(ctx):
     # find_unique itself: the mask is (True, |diff| > tolerance)
     u = app(fu, "hcat") if fu is not None and not is_unknown(fu) and not isinstance(fu, tuple) else None
     und = False
+    fu_model = False         # (pass 6) find_unique established as (True, |diff| > |tol| * max|diff|): the drift world may be de-duplicated with it
     ok = u is not None and len(u[1]) == 2 and truth(u[1][0], None) is True
     if u is None or len(u[1]) != 2:
         ctx.error("find_unique: the first sample is unique; a later sample is unique exactly when it differs from its predecessor by more than the tolerance", lf,
@@ -787,12 +894,13 @@ def r6_tolerance_strictness(ctx):
     elif u is not None and len(u[1]) == 2:
         ctx.check(ok, "find_unique: the first sample is unique; a later sample is unique exactly when it differs from its predecessor by more than the tolerance", lf,
                   None if ok else short(fu))
+        fu_model = bool(ok) and site_ok.get("find_unique") is True
     # ---- the vectorised (numpy) variant of findap
     vec = [v for v in variants if not v[4]]
     if len(vec) != 1:
         ctx.error("findap: the vectorised variant (no loops; de-duplicates through locate.find_unique) was not found", CYC + ":1", [v[0] for v in vec])
     else:
-        _findap_numpy(ctx, vec[0], fu, pl, consts, table, lf)
+        _findap_numpy(ctx, vec[0], fu, pl, consts, table, lf, fu_model)
     for q, fn, S, pq, loops, S0 in variants:
         # length 1 (named in the property's quantifier): the only sample is the first sample and is selected
         f1 = Facts()
@@ -1021,6 +1129,60 @@ def _retained_mask(S, allu, U, strict=True):
     return dict(ends=ends, mask=mask, cells=cells, ini=ini, ini_t=ini_t, inner=inner[0], last=last[0], YU=YU, YUr=_masks(S, YU), text=text)
 
 
+def _drift_world():
+    """(pass 6) signals in which a plateau creeps by sub-tolerance steps and then returns to its first value by more than the tolerance, so that
+    two NEIGHBOURING retained samples are exactly equal (the property quantifies over sub-tolerance drifts): every sequence of 3 or 4 levels from
+    {0, 16, 32}, a repeated level reached through the creep +-2, +-4, +-6 and back; tol = 1/8 (exact in binary).
+    [(y, tol, u, yu, positions of the retained samples)] under  u = (True, |diff| > |tol| * max|diff|)  - the semantics of find_unique this rule
+    establishes separately - computed in exact rational arithmetic; only signals whose retained samples contain an equal neighbouring pair"""
+    from itertools import product
+    out, seen = [], set()
+    tol = Fraction(1, 8)
+    for n in (3, 4):
+        for r in product((0, 16, 32), repeat=n):
+            for sgn in (1, -1):
+                y = [r[0]]
+                for v in r[1:]:
+                    if v == y[-1]:
+                        y += [v + sgn * 2, v + sgn * 4, v + sgn * 6]
+                    y.append(v)
+                if tuple(y) in seen:
+                    continue
+                seen.add(tuple(y))
+                d = [abs(b - a) for a, b in zip(y, y[1:])]
+                stol = abs(tol * max(d))
+                u = [True] + [x > stol for x in d]
+                pos = [i for i, k in enumerate(u) if k]
+                yu = [y[i] for i in pos]
+                if len(yu) >= 3 and not all(u) and any(a == b for a, b in zip(yu, yu[1:])):
+                    out.append((y, tol, u, yu, pos))
+    return out
+
+
+def _drift_check(S, st, m):
+    """the vectorised findap on the drift world: first entry as created, interior entries by the compiled window test, last entry by its store.
+    Two neighbouring retained samples of exactly equal value that are both selected are consecutive reversal points (removed samples are never
+    selected) that are not a maximum followed by a minimum: witnesses [dict]"""
+    bad = []
+    a_, b_ = m["ends"]
+    YU, last = m["YU"], m["last"]
+    for y, tol, u, yu, pos in _drift_world():
+        marks = [m["ini_t"]] + [bool(st(yu[k - 1:k + 2], None)) for k in range(1, len(yu) - 1)]
+        ne = yu[-1] != yu[-2]
+        f = Facts(truths=[(F.fn("cmp:NotEq", a_, b_), ne), (F.fn("cmp:NotEq", b_, a_), ne), (F.fn("cmp:Eq", a_, b_), not ne), (F.fn("cmp:Eq", b_, a_), not ne)])
+        for v in (S.E("V.size", V=YU), S.E("len(V)", V=YU)):
+            f.num_set(v, len(yu))
+        tg = truth(conj(list(last[4]["guard"])), f)
+        marks.append(None if tg is None else (truth(last[2], f) if tg else m["ini_t"]))
+        for k in range(len(yu) - 1):
+            if yu[k] == yu[k + 1] and marks[k] is True and marks[k + 1] is True:
+                sel = [pos[j] for j, t in enumerate(marks) if t]
+                bad.append({"signal": y, "tol": float(tol), "retained samples (find_unique)": yu, "at": pos, "selected": sel, "selected values": [y[i] for i in sel],
+                            "equal neighbouring reversal points": [pos[k], pos[k + 1]]})
+                break
+    return bad
+
+
 _EXACT_VALUES = (-50, -1, 0, 1, 70)
 _TABLES = {}
 
@@ -1056,7 +1218,7 @@ def _reversal_tables(st):
     return exact, narrow
 
 
-def _findap_numpy(ctx, variant, fu, pl, consts, table, lf):
+def _findap_numpy(ctx, variant, fu, pl, consts, table, lf, fu_model=False):
     q, fn, _, pq, _, S0 = variant
     y = S0.E(pq[0])
     inl = {k: v for k, v in table.items() if k != "findap"}
@@ -1176,7 +1338,7 @@ def _findap_numpy(ctx, variant, fu, pl, consts, table, lf):
                 ret_ok = False
                 probs.append(f"all-unique={allu}: samples worked on: {short(YU)}")
         if st is not None:
-            stencils.append((allu, st, twin[allu], mt["inner"]))
+            stencils.append((allu, st, twin[allu], mt["inner"], S, m))
         elif not same(Sg, S.E("np.sign(V[1:] - V[:-1])", V=YU)):
             slope_ok = False
             probs.append({"all-unique": allu, "slope signs": short(Sg), "expected": "sign(diff(retained samples))", "retained samples": short(YU)})
@@ -1194,7 +1356,7 @@ def _findap_numpy(ctx, variant, fu, pl, consts, table, lf):
     if not stencils:
         return
     bad_exact, bad_narrow, hidden, node = [], [], [], fn
-    for allu, st, St, cell in stencils:
+    for allu, st, St, cell, _, _ in stencils:
         exact, narrow = _reversal_tables(st)
         if exact and not bad_exact:
             bad_exact, node = exact + [{"test": short(cell[2], 240)}], cell[3]
@@ -1206,6 +1368,20 @@ def _findap_numpy(ctx, variant, fu, pl, consts, table, lf):
               bad_exact or None)
     if bad_exact:
         return
+    # (pass 6) the same compiled test on retained samples that are NOT all different from their neighbours (sub-tolerance drift and return)
+    drift = [(st, cell, S_, m_) for allu, st, _, cell, S_, m_ in stencils if not allu]
+    msg = ("findap (numpy variant): two neighbouring retained samples of exactly equal value (a plateau that creeps by sub-tolerance steps and then returns "
+           "to its first value) are never both selected - consecutive reversal points are a maximum and a minimum, so they differ; decided on every "
+           "drift signal over three levels (first entry as created, interior entries by the window test, last entry by its store)")
+    if drift and fu_model and ret_ok and scatter_ok and end_ok:
+        st, cell, S_, m_ = drift[0]
+        try:
+            wit = _drift_check(S_, st, m_)
+        except (Unsupported, ZeroDivisionError, ArithmeticError, TypeError, ValueError, IndexError) as e:
+            wit = None
+            ctx.error(msg, cell[3], f"the window test could not be evaluated on windows with equal neighbours: {e}")
+        if wit is not None:
+            ctx.check(not wit, msg, cell[3], (wit[:3] + [f"{len(wit)} drift signals of {len(_drift_world())}", {"test": short(cell[2], 240)}]) if wit else None)
     msg = ("findap (numpy variant): the reversal test is sign-exact in the signal's own dtype - on every int8 signal [0, d0, d0 + d1] it gives the verdict of exact "
            "arithmetic (differences, signs and comparisons of samples are safe; a product of two slopes wraps around in narrow integer dtypes unless the samples "
            "were converted to float first)")
